@@ -134,6 +134,9 @@ class ObjectSpec:
                            F(arr.t, i + 1, mode) == z3.Concat(F(arr.t, i, mode), self.elem_piece(ins, arr, i, mode))))
         ex.fact(z3.Implies(z3.And(i >= 0, i < z3.Length(arr.t)),
                            A(arr.t, i + 1) == z3.And(A(arr.t, i), self.elem_valid(ins, arr, i))))
+        # ALLVALID is a conjunction over a prefix: the whole implies every prefix (monotonicity, instance at i + 1)
+        ex.fact(z3.Implies(z3.And(i >= 0, i < z3.Length(arr.t)),
+                           z3.Implies(A(arr.t, z3.Length(arr.t)), A(arr.t, i + 1))))
 
     # ---- the walk
     def wire_and_valid(self, mode0):
